@@ -3,8 +3,8 @@
 # source (Go AST walk, no line numbers) and compares the list with the committed
 # baseline the model's Panic branches were written from.
 # usage: tools/census.sh [REPO]        (default /repo)
-# prints `CENSUS OK sites=<n> by-kind=<...> by-class=<...>` and exits 0, or
-# `CENSUS-DIFF + <record>` / `CENSUS-DIFF - <record>` lines and exits 1.
+# exit 0: identical, or only relocated / renamed; exit 2: soft differences (see tools/census_cmp.py);
+# exit 1: new site classes of a dangerous kind (`CENSUS-DIFF` lines).
 # After reviewing a difference, refresh the baseline (new records get class `unreviewed`):
 #   translator/census/census -repo /repo -out translator/census/baseline.json -annot translator/census/baseline.json
 set -e
@@ -12,4 +12,7 @@ cd "$(dirname "$0")/.."
 export GOFLAGS=-mod=mod GOPROXY=off GOSUMDB=off GOTOOLCHAIN=local
 REPO=${1:-/repo}
 (cd translator && go build -o census/census ./census)
-exec ./translator/census/census -repo "$REPO" -check translator/census/baseline.json
+mkdir -p build
+./translator/census/census -repo "$REPO" -out build/census_current.json > build/census_current.log || { cat build/census_current.log; exit 1; }
+tail -1 build/census_current.log
+exec python3 tools/census_cmp.py translator/census/baseline.json build/census_current.json
